@@ -243,7 +243,7 @@ fn offsets_event(out: &mut Out, src: &str, t: &Transaction, cached: bool) {
 }
 
 fn part_off(o: &Opts, out: &mut Out) {
-    let n = if o.thorough() { 1500 } else { 180 };
+    let n = if o.thorough() { 3000 } else { 180 };
     for (k, (src, t)) in tx_stream(o, 21, n).into_iter().enumerate() {
         if k % 40 == 0 { out.ev(json!({"ev": "Seg", "part": "off"})); }
         let plain = strip_metadata(&t);
